@@ -30,3 +30,41 @@ def source(ns):
         out.append(TEMPLATE.format(N=n, N1=n + 1, ARGS=', '.join(f'{x}: int' for x in names),
                                    PRE=' and '.join(f'1 <= {x} < maxb' for x in names), LIST=', '.join(names)))
     return '\n'.join(out)
+
+
+TEMPLATE_P = '''
+def checkp{N}({ARGS}, {PARGS}, g: int, maxb: int, maxs: int) -> bool:
+    """
+    pre: 0 <= g <= {N}
+    pre: 1 <= maxs <= {N1} and 2 <= maxb <= 64
+    pre: {PRE}
+    pre: {PPRE}
+    post: _
+    """
+    return property_holds_parents([{LIST}], [{PLIST}], g, maxb, maxs)
+
+
+def reachp{N}({ARGS}, {PARGS}, g: int, maxb: int, maxs: int) -> bool:
+    """
+    pre: 0 <= g <= {N}
+    pre: 1 <= maxs <= {N1} and 2 <= maxb <= 64
+    pre: {PRE}
+    pre: {PPRE}
+    post: _
+    """
+    # reachability twin: must be REFUTED (three groups whose parent ids are not monotone reach the oracle)
+    return not (g >= 3 and [{PLIST}][1] > [{PLIST}][2] and property_holds_parents([{LIST}], [{PLIST}], g, maxb, maxs))
+'''
+
+
+def source_parents(ns):
+    out = ['from harness.C19_bunch import aioclient, property_holds_parents\n']
+    for n in ns:
+        names = [f'n{i}' for i in range(n)]
+        ps = [f'p{i}' for i in range(n)]
+        out.append(TEMPLATE_P.format(N=n, N1=n + 1, ARGS=', '.join(f'{x}: int' for x in names),
+                                     PARGS=', '.join(f'{x}: int' for x in ps),
+                                     PRE=' and '.join(f'1 <= {x} < maxb' for x in names),
+                                     PPRE=' and '.join(f'0 <= p{i} <= {i}' for i in range(n)),
+                                     LIST=', '.join(names), PLIST=', '.join(ps)))
+    return '\n'.join(out)
